@@ -19,6 +19,7 @@ code on that model; any other deviation is a violation.
 from __future__ import annotations
 
 import json
+import os
 from typing import Any, Optional
 
 from harness.core import Ctx, Driver, VERIF, LEAN
@@ -50,6 +51,8 @@ ASSUMPTIONS = ['no type alternatives and no open content in the explored models 
 
 KNOWN_ID = 'C15-F0'
 FUEL = 3000
+# set to True once notes/fixes/C15-root-maxoccurs-zero.patch is applied to /repo (the port then skips an empty root too)
+ROOT_MAX0_FIX = os.environ.get('C15_ROOT_MAX0_FIX', '0') == '1'
 PINNED_FILE = VERIF / 'corpus' / 'C15' / 'pinned-deviations.json'
 _pinned: Optional[dict] = None
 
@@ -71,7 +74,12 @@ def known_match(case: Any, detail: Any) -> Optional[str]:
     if not isinstance(detail, dict):
         return None
     if detail.get('port_ok') is not None:
-        return KNOWN_ID if detail['port_ok'] == detail.get('impl_ok') else None
+        if detail['port_ok'] != detail.get('impl_ok'):
+            return None
+        ast = case.get('ast')
+        if ast and ast[3] == 0 and not detail.get('impl_ok') and not ROOT_MAX0_FIX:
+            return 'C15-F2'       # empty root group still checked (one-line repair proposed)
+        return KNOWN_ID
     return KNOWN_ID if case.get('model') in pinned().get(case.get('v'), ()) else None
 
 
@@ -149,7 +157,7 @@ def run_batch(ctx: Ctx, drv: Optional[Driver], models: list[tuple], v11: bool, f
             ctx.mismatch('parsed group differs from the declared model', {'model': c15.show(ast)},
                          c15.ast_of_json(intro.json), c15.skeleton(ast))
             continue
-        reqs.append(intro.request(v11, FUEL))
+        reqs.append(dict(intro.request(v11, FUEL), rootfix=ROOT_MAX0_FIX))
         pend.append((ast, ob))
     answers = drv.query(reqs) if drv is not None and reqs else [None] * len(reqs)
     for (ast, ob), ans in zip(pend, answers):
@@ -224,7 +232,9 @@ def families(ctx: Ctx, with_driver: bool = True):
     core = c15.exh2_core()
     occ3 = [(1, 1), (0, 1), (0, None), (2, 2), (1, 2)]
     edc = c15.edc_models()
+    wit = json.loads((VERIF / 'corpus' / 'C15' / 'theorem-witnesses.json').read_text())['models']
     for v11 in (False, True):
+        yield 'theorem-witnesses', v11, [tup(m['ast']) for m in wit if ('1.1' if v11 else '1.0') in m['versions']]
         yield 'exh2-core', v11, (rng.sample(core, 2000) if ctx.quick() else core)
         wm = c15.wildcard_models(v11)
         yield 'wildcard-pairs', v11, (rng.sample(wm, min(len(wm), 600)) if ctx.quick() else wm)
@@ -267,14 +277,16 @@ def run(ctx: Ctx, driver_ok: bool) -> None:
 def search(ctx: Ctx) -> None:
     """a proof obligation or the correspondence broke and no failing input was found: widen the exploration
     (thorough sizes), still with the port as the matcher of the known finding when the driver exists"""
+    import time
     saved = ctx.tier
     ctx.tier = 'thorough'
-    ctx.budget_s += 600
+    deadline = time.time() + (240 if saved == 'quick' else 600)
+    ctx.budget_s += 700
     drv = Driver('drv_c15') if have_driver() else None
     try:
         for fam, v11, models in families(ctx, drv is not None):
             for i in range(0, len(models), 50):
-                if ctx.failures or ctx.time_left() < 30:
+                if ctx.failures or time.time() > deadline or ctx.time_left() < 30:
                     return
                 try:
                     run_batch(ctx, drv, models[i:i + 50], v11, fam, 0.0)
@@ -330,7 +342,7 @@ def replay(ctx: Ctx, obj: dict) -> int:
         print('judgement: property violated (a lax build records model errors, it does not raise)')
         return 1
     ob = obs[0]
-    ans = Driver('drv_c15').query([ob['intro'].request(v11, FUEL)])[0]
+    ans = Driver('drv_c15').query([dict(ob['intro'].request(v11, FUEL), rootfix=ROOT_MAX0_FIX)])[0]
     so = strict_outcome(ast, v11)
     impl_ok = ob['kind'] is None
     print('implementation: lax build model error =', ob['kind'], ' strict build =', so)
